@@ -1,7 +1,7 @@
 (* Props/C16.v — Recovered runs produce the same outputs as failure-free runs.
    Only statements here; every proof is [exact <lemma of Recovery/Proofs.v>]. *)
 From Coq Require Import List NArith ZArith Lia.
-From SF Require Import Base.Str Recovery.Model Recovery.Proofs Recovery.Corr Retry.Model.
+From SF Require Import Base.Str Recovery.Model Recovery.Proofs Recovery.Budget Recovery.Corr Retry.Model.
 Import ListNotations.
 Local Open Scope string_scope. Local Open Scope list_scope.
 
@@ -39,6 +39,34 @@ Theorem C16_rollback_only_adds : forall (val : Type) (d : dag val) fuel s i k v,
   s k = Some v -> exists v', ensure d fuel s i k = Some v'.
 Proof. exact ensure_mono'. Qed.
 
+(* LIVENESS WITH THE RETRY BUDGET (partial).  A managed history is a list of failures, each with the outputs lost with it
+   and the rollback set the engine chose (Recovery/Budget.v: granted iff every member's version < limit, then all
+   versions +1 and the members are re-executed).  If for EVERY job   1 + (number of rollbacks that re-execute it)  <=  limit
+   -- re-executions demanded by the job's own failures AND by its consumers' failures, which is what the code counts
+   (finding 1) -- then from any state that agrees with the failure-free run: no rollback is ever refused, the versions are
+   exactly 1 + demand, the state still agrees, and finishing without further failures yields the failure-free output of
+   every job.  Partial: the hypothesis is about demanded re-executions, not about failures as the property text says
+   (C16_completes_refuted shows the text's hypothesis is too weak); concurrency of recoveries is not modelled (C19). *)
+Theorem C16_completes_partial : forall (val : Type) (dflt : val) (d : dag val) L h s0,
+  well_formed d -> agrees val dflt d s0 ->
+  (forall j, (1 + demand h j <= L)%N) ->
+  exists m', mrun val d (Some L) (m0 val s0) h = Some m' /\
+             (forall j, mver val m' j = (1 + demand h j)%N) /\
+             agrees val dflt d (mst val m') /\
+             forall out, out < length d -> ensure d (S out) (mst val m') out out = failure_free d out.
+Proof. exact completes_within_budget. Qed.
+(* ... and every granted rollback whose set is closed (contains the failed job; every input of a member is available or an
+   earlier member) makes the failed job's output exist again *)
+Theorem C16_rollback_recovers : forall (val : Type) (dflt : val) (d : dag val) lim m f m',
+  well_formed d -> closed_b val d (mst val m) f = true -> mstep val d lim m f = Some m' ->
+  mst val m' (failed f) <> None.
+Proof. exact mstep_recovers. Qed.
+(* THE BOUNDARY: a history is granted only if that budget holds for every job it rolls back; so the condition of
+   C16_completes_partial is exactly what the retry counter enforces, and finding 1 (known/C16.txt) sits on it. *)
+Theorem C16_budget_is_tight : forall (val : Type) (d : dag val) (L : N) (h : list failure) (s0 : store val) m',
+  mrun val d (Some L) (m0 val s0) h = Some m' -> forall j : nat, (demand h j > 0)%N -> (1 + demand h j <= L)%N.
+Proof. exact granted_only_within_budget. Qed.
+
 (* REFUTED half of the text: "each job fails fewer times than the retry limit => the run completes".
    The retry counter counts re-executions, not failures: in a 3-job pipeline with limit 2 where /s1 and /s2
    each fail once with loss of data, the second rollback must re-execute /s0 a third time and the manager
@@ -70,6 +98,15 @@ Example C16_example :
   run ex_dag [Exec 0; Exec 1; Exec 2; Lose 1; Lose 2; Exec 3] empty 3 = None /\
   ensure ex_dag 4 (run ex_dag [Exec 0; Exec 1; Exec 2; Lose 1; Lose 2; Exec 3] empty) 3 3 = Some (VS "seed|s0|s1|s2").
 Proof. vm_compute. repeat split; reflexivity. Qed.
+(* the domino of finding 1 in the budget model: limit 3 grants both rollbacks, limit 2 refuses the second *)
+Example C16_budget_example :
+  let h := [mkfail 2 [1; 2] [1; 2]; mkfail 3 [1; 2; 3] [1; 2; 3]] in
+  let s := run ex_dag [Exec 0; Exec 1] empty in
+  demand h 1 = 2%N /\
+  (exists m', mrun cval ex_dag (Some 3%N) (m0 cval s) h = Some m' /\ mst cval m' 3 = Some (VS "seed|s0|s1|s2")) /\
+  mrun cval ex_dag (Some 2%N) (m0 cval s) h = None /\
+  all_closed cval ex_dag (Some 3%N) (m0 cval s) h = true.
+Proof. vm_compute. repeat split; try reflexivity. eexists. split; reflexivity. Qed.
 Lemma ex_dag_wf : well_formed ex_dag.
 Proof.
   intros i j H k Hk.
@@ -84,3 +121,6 @@ Print Assumptions C16_failure_free_fixpoint.
 Print Assumptions C16_rollback_completes_partial.
 Print Assumptions C16_rollback_only_adds.
 Print Assumptions C16_completes_refuted.
+Print Assumptions C16_completes_partial.
+Print Assumptions C16_rollback_recovers.
+Print Assumptions C16_budget_is_tight.
